@@ -1,5 +1,6 @@
 import RepeVerif.Lemmas.WriterDiscipline
 import RepeVerif.Gen.Wire
+import RepeVerif.Gen.Torn
 /-!
 # C05 — Bytes put on a connection are always whole frames, never torn or interleaved
 
@@ -15,7 +16,8 @@ any point.  An endpoint is described by two facts, `exclusive` (writer lock held
 byte of a frame) and `failOnInterrupt` (an interrupted frame fails the connection).
 
 clause → theorem
-* concatenation of complete frames; no interleaving ........ `whole_frames` (shape, for every schedule)
+* concatenation of complete frames; no interleaving ........ `whole_frames` (shape, for every schedule),
+                                                              `whole_frames_endpoints` + `endpoints_disciplined` (the six endpoints, current source)
 * an interrupted write is never followed by further frames .. `whole_frames` (last clause), `failed_is_final`,
                                                               `whole_frames_quiescent`
 * the connection is failed instead .......................... `interrupted_frame_fails_connection`
@@ -23,9 +25,11 @@ clause → theorem
 * each fact is necessary .................................... `torn_without_fail`, `interleaved_without_lock`
 * the driver of the correspondence runs this model .......... `driver_run_is_model_run`, `driver_frames_consistent`
 
-What is *not* a theorem: that each of the six endpoints has the two facts.  They are not extractable
-from six differently written endpoints; that tie is behavioural (correspondence family `torn`: stalled
-scripted peers, write timeouts, cancelled calls, independent stream parser).  Kernel socket semantics,
+The two facts of each endpoint are read off its write path by `extract/torn.py` on every run
+(`Gen.Torn`, `endpoints_disciplined`, `whole_frames_endpoints`): lock regions, writes outside them,
+dropped write results, what a failed/timed-out write does, the abandoned-frame marker.  What the syntactic
+forms *mean* at run time is tied behaviourally (correspondence family `torn`: stalled scripted peers,
+write timeouts, cancelled calls, independent stream parser).  Kernel socket semantics,
 `BufWriter`, tokio cancellation points and tungstenite's framing are exercised there, not modelled.
 -/
 namespace Repe.C05
@@ -99,6 +103,49 @@ theorem whole_frames (f : Facts) (hx : f.exclusive = true) (hf : f.failOnInterru
       obtain ⟨hm, hlt⟩ := hi.curWf w m off hc
       exact ⟨m.toVec.take off, hs, Or.inr ⟨m, off, hm, hlt, rfl⟩,
         fun _ => Or.inl ⟨rfl, w, m, off, rfl, hc, rfl⟩⟩
+
+/-! ### the six endpoints, as the current source writes them -/
+
+/-- Every endpoint's write path, as re-extracted from `/repo` on this run, has both discipline facts:
+one writer (or one lock region spanning every frame write and no write outside it), whole writes, no
+dropped write result, every failed or timed-out write ends the connection, and a dropped writing
+future cannot be followed by another frame.  (Blocking client, async client, WebSocket client,
+blocking server, async server, WebSocket server = endpoints 0..5 of the `torn` family.) -/
+theorem endpoints_disciplined :
+    ∀ ep, ep < 6 → (Gen.Torn.obs ep).map Obs.facts = some ⟨true, true⟩ := by decide
+
+/-- `whole_frames` for each of the six endpoints with the facts the current source gives it. -/
+theorem whole_frames_endpoints (ep : Nat) (hep : ep < 6) :
+    ∃ o, Gen.Torn.obs ep = some o ∧
+    ∀ (evs : List (Ev Message)), (∀ e ∈ evs, e.Wf) →
+      let c := run mlen o.facts evs Conn.init
+      (∀ m ∈ c.done, m.WF) ∧
+      ∃ tail : Bytes,
+        c.stream = (c.done.map Message.toVec).flatten ++ tail ∧
+        (tail = [] ∨ ∃ (m : Message) (off : Nat), m.WF ∧ off < m.toVec.length ∧ tail = m.toVec.take off) ∧
+        (tail ≠ [] →
+          (c.failed = false ∧ ∃ w m off, c.lock = some w ∧ c.cur w = some (m, off) ∧ tail = m.toVec.take off) ∨
+          (c.failed = true ∧ ∀ later : List (Ev Message),
+              (run mlen o.facts later c).stream = c.stream ∧ (run mlen o.facts later c).done = c.done)) := by
+  have h := endpoints_disciplined ep hep
+  cases ho : Gen.Torn.obs ep with
+  | none => rw [ho] at h; cases h
+  | some o =>
+    rw [ho] at h
+    simp only [Option.map_some, Option.some.injEq] at h
+    refine ⟨o, rfl, fun evs hwf => ?_⟩
+    have hx : o.facts.exclusive = true := by rw [h]
+    have hf : o.facts.failOnInterrupt = true := by rw [h]
+    exact whole_frames o.facts hx hf evs hwf
+
+/-- A dangerous form is enough to lose a fact (non-vacuity of the extraction: these are the
+observations of F5 — two dropped timeout results —, F6 — no shutdown —, F7 — no marker —, and of a
+write outside the lock region). -/
+example : (Obs.facts ⟨true, 0, 0, true, 2, false, true⟩).failOnInterrupt = false ∧
+    (Obs.facts ⟨false, 1, 0, true, 0, false, true⟩).failOnInterrupt = false ∧
+    (Obs.facts ⟨false, 1, 0, true, 0, false, false⟩).failOnInterrupt = false ∧
+    (Obs.facts ⟨false, 1, 2, true, 0, true, true⟩).exclusive = false ∧
+    (Obs.facts ⟨false, 2, 0, true, 0, true, true⟩).exclusive = false := by decide
 
 /-- Quiescent reading (what a peer that drained the connection sees): when no frame is in progress
 (every started frame was completed or interrupted), a non-empty torn tail means the connection is
